@@ -3,6 +3,7 @@ CONSTANTS
   MaxConns = 4
   AcceptMode = "bounded"
   MaxAccepts = 2
+  AbortEndsLoop = FALSE
 VIEW view
 ACTION_CONSTRAINT Emit
 INVARIANTS NoStrandedConn AnsweredWereMade
